@@ -20,12 +20,14 @@ LEVEL_TEXT = ("every operation of the alphabet is under contract and verified fo
 LEVEL_NOTE = ("floats as reals; trusted: quaternion_from_matrix (vendored), numpy dot; transform verified for SE(3) arguments "
               "on matrix-built trajectories; propagate variant, Sim(3) arguments, quaternion-built storage: bounded histories")
 SIDECARS = ["contracts.lie_algebra", "contracts.lemmas_lie", "contracts.geometry", "contracts.filters", "contracts.umeyama",
-            "contracts.trajectory", "contracts.lemmas_traj"]
+            "contracts.trajectory", "contracts.lemmas_traj",
+            "contracts.quaternion"]
 T = "evo.core.trajectory."
 FUNCTIONS = [T + "PosePath3D.transform", T + "PosePath3D.scale", T + "PosePath3D.reduce_to_ids",
              T + "PoseTrajectory3D.reduce_to_ids", T + "PosePath3D.downsample", T + "PosePath3D.motion_filter",
              T + "PoseTrajectory3D.reduce_to_time_range", T + "PosePath3D.align_origin", T + "PosePath3D.project",
-             "evo.core.geometry.accumulated_distances", T + "calc_speed", "evo.core.lie_algebra.is_se3"]
+             "evo.core.geometry.accumulated_distances", T + "calc_speed", "evo.core.lie_algebra.is_se3",
+             "evo.core.transformations.quaternion_matrix", T + "xyz_quat_wxyz_to_se3_poses"]
 LEMMAS = ["se3_closed_under_product", "membership_accepts_genuine"]
 TRUSTED = ["evo.core.transformations.quaternion_from_matrix (vendored eigen-decomposition): unit quaternion with "
            "qmat(q) = rotation block", "numpy.dot"]
